@@ -42,6 +42,9 @@ type testServer struct {
 	accepts  atomic.Int64
 	handled  atomic.Int64
 	bodyRecv atomic.Int64
+	// redirectTo >= 0: this server answers every request at once with a 302
+	// to that server (which has another key)
+	redirectTo int
 }
 
 var servers []*testServer
@@ -105,7 +108,7 @@ func spkiHash(c *x509.Certificate) []byte {
 }
 
 func startServer(name string, chain [][]byte, key crypto.Signer, certs []*x509.Certificate, trusted bool) *testServer {
-	ts := &testServer{name: name, trusted: trusted}
+	ts := &testServer{name: name, trusted: trusted, redirectTo: -1}
 	for _, c := range certs {
 		ts.chainFP = append(ts.chainFP, spkiHash(c))
 	}
@@ -118,6 +121,11 @@ func startServer(name string, chain [][]byte, key crypto.Signer, certs []*x509.C
 	srv := &http.Server{
 		Handler: http.HandlerFunc(func(w http.ResponseWriter, r *http.Request) {
 			ts.handled.Add(1)
+			if ts.redirectTo >= 0 {
+				w.Header().Set("Connection", "close")
+				http.Redirect(w, r, servers[ts.redirectTo].url, http.StatusFound)
+				return
+			}
 			n, _ := io.Copy(io.Discard, r.Body)
 			ts.bodyRecv.Add(n)
 			io.WriteString(w, "bye\n")
@@ -164,6 +172,15 @@ func setupPKI() error {
 		k := genKey("p256")
 		c, d := makeCertSerial("curlrevshell", 1, k, nil, nil, false)
 		servers = append(servers, startServer(fmt.Sprintf("lookalike-%d", i), [][]byte{d}, k, []*x509.Certificate{c}, false))
+	}
+	// 7: a pinned server that redirects to a server with another key: the pin
+	// is per connection, so the redirect target must be refused
+	{
+		k := genKey("p256")
+		c, d := makeCert("redirector", k, nil, nil, false)
+		ts := startServer("redirector-to-selfsigned-p256", [][]byte{d}, k, []*x509.Certificate{c}, false)
+		ts.redirectTo = 1
+		servers = append(servers, ts)
 	}
 	return nil
 }
@@ -338,6 +355,18 @@ func runC13(c C13Case) (key, what string) {
 			}
 			return "", ""
 		}
+		if ts.redirectTo >= 0 && (expect == "match" || expect == "lenient" && err == nil) {
+			// the pinned server sends us on to a server with another key
+			ti := ts.redirectTo
+			tH, tB := after.handled[ti]-before.handled[ti], after.body[ti]-before.body[ti]
+			if alone && (tH != 0 || tB != 0) {
+				return "redirect-target-not-pinned", fmt.Sprintf("%s: the pinned server redirected to %s, whose key is not the configured one, and that server's handler ran %d time(s) (err=%v)", desc, servers[ti].name, tH, err)
+			}
+			if err == nil {
+				return "redirect-target-not-pinned", fmt.Sprintf("%s: the pinned server redirected to %s, whose key is not the configured one, but Go returned nil", desc, servers[ti].name)
+			}
+			return "", ""
+		}
 		switch expect {
 		case "match":
 			if err != nil {
@@ -490,6 +519,11 @@ func c13Classes(c C13Case) (cl []string, nontrivial bool) {
 	}
 	if len(la) >= 2 {
 		add("lookalike-certificates-both-contacted")
+	}
+	for _, call := range c.Calls {
+		if _, e := spell(call); e == "match" && servers[call.Server%len(servers)].redirectTo >= 0 {
+			add("pinned-server-redirects-elsewhere")
+		}
 	}
 	return cl, nontrivial
 }
